@@ -2,7 +2,7 @@
 import math
 import numpy as np
 from mc import dsl
-from mc.norm import attempt, is_refused, pyval
+from mc.norm import tap_array, attempt, is_refused, pyval
 
 PROP = "C05"
 RULE = ("cases = (row-length vector, dtype, value pattern, reduction, calling form), enumerated completely; oracle = numpy on "
@@ -181,6 +181,8 @@ def check(case, acc):
 
     def run():
         r = call()
+        if op in ("argmax", "argmin") and form != "none":
+            tap_array(r)
         if form == "none":
             return ("S", pyval(r if not isinstance(r, np.ndarray) else r[()]))
         a = np.asarray(r)
